@@ -183,6 +183,114 @@ CHECKS = {
         'technique': 'Coq non-interference proof over extracted action lists + traced touch points, fingerprints, forced '
                      'schedules and stress differential',
     },
+    'C04': {
+        'text': 'Proof (17 obligations, all full). A Gallina transliteration of the validator over the segment/field/'
+                'component/subcomponent and message/group trees with structured errors; a declarative `conforms` predicate; '
+                'C04_sound_complete(_reference,_message): for every tree and every reference in the decidable domain `linked`, '
+                'validate_errors = [] <-> conforms; corollaries producing the NAMED error for a missing required child, an '
+                'exceeded maximum, a foreign child and an unknown element at both levels; C04_wrapper (is_valid iff no '
+                'errors, raising form raises the first error, report = errors then warnings); the duplicate-bounded-name '
+                'structures are refuted with a computed witness (F15). The model is compared with hl7apy on conforming '
+                'instances and single-point mutations (structured error multisets, inside Coq); the oracle additionally '
+                'checks purity, determinism and the three calling conventions on the real objects.',
+        'design_ref': 'DESIGN.md section 7 C04',
+        'note': 'Trusted: Coq kernel + vm_compute; translators; harness c04.py. No axioms. Modelled: ASCII, TOLERANT trees, '
+                'sequence-shaped references; table-compliance warnings are not modelled (length warnings compared as a '
+                'count); purity is a property of the real object graph and is observed, not proved.',
+        'technique': 'Coq soundness/completeness proof of a validator model against a declarative conformance predicate + '
+                     'structured-error differential + mutation oracle',
+    },
+    'C08': {
+        'text': 'Proof (62 obligations). Gallina model of _get_segment_reference and the find_groups loop (Model/Groups.v) and '
+                'of parse_message / Group+Message encoding (Model/Message.v). For ALL segment sequences and ALL structures: '
+                'flattening the forest gives the input in order (C08_order), grouped and flat parses encode identically '
+                '(C08_same_encoding*), every group/placed segment is a declared child of its parent (C08_sound*), unplaced '
+                'segments are exactly those the search does not find (C08_unplaced), no empty group; per version a '
+                'kernel-checked sweep over every unique-place structure x {required-only, all-children, repeat-2} that the '
+                'search returns the prescribed forest, with the failing structures explicit in the statement '
+                '(MFN_M10 in v2.3 = F6, OPR_O38 in v2.6 = F23, refuted witness included). Forest dumps of the model and of '
+                'hl7apy are compared inside Coq on all structure instances, made-up structures and whole messages.',
+        'design_ref': 'DESIGN.md section 7 C08',
+        'note': 'Trusted: Coq kernel + vm_compute; translator gen_tables.py; harness c08.py. No axioms. ASCII, standard '
+                'tables, no profiles in the message model. "Prescribed forest" is bounded-exhaustive (three instance families '
+                'per structure), stated as such; the validate() clause is checked by the oracle.',
+        'technique': 'Coq invariant proofs over the group-search fold + per-version exhaustive vm_compute sweep + forest '
+                     'differential',
+    },
+    'C09': {
+        'text': 'Partial proof. Function-heap model of the mutable element tree (Model/Heap.v: ElementList append/insert/set/'
+                'remove/replace_child/create_element/_can_add_child with re-entrancy, parent/traversal_parent setters, class-'
+                'specific add, effects before a raise persist) and an abstract "ordered list of repetitions per child name" '
+                'specification (Model/HeapSpec.v). C09_refines: add / remove / replace refine the list edits, lifted to all '
+                'histories by induction; C09_order_stable; C09_encoding (encoding is a function of the abstraction); F19/F20 '
+                'refuted with computed witnesses. Model and hl7apy replay the same operation histories; the full state dump '
+                'of every live handle is compared after EVERY step inside Coq; the oracle compares the encoding with the '
+                'plain list model after every step.',
+        'design_ref': 'DESIGN.md section 7 C09',
+        'note': 'Trusted: Coq kernel + vm_compute; translators; harness heapcorr.py. No axioms. Scope: Segment->Field->'
+                'Component->SubComponent parents, one version per history; Group/Message parents are exercised by the oracle '
+                'only. The refinement is stated for Element.add / replace_child / remove, not for whole operations with '
+                'lazily created targets.',
+        'technique': 'Coq refinement proof of a heap model to an ordered-list specification + step-by-step state-dump '
+                     'differential on operation histories',
+    },
+    'C10': {
+        'text': 'Partial proof (190 obligations). Invariant RInv over function heaps: listed => parent pointer, listed by one '
+                'parent once, by-name indexes = list grouped by name in order, traversal children unlisted with no parent, '
+                'version/level constant along parent edges. C10_init; C10_step_partial: RInv is preserved by EVERY operation '
+                '(successful or rejected) when element arguments are detached (op_safe); lifted to all histories '
+                '(C10_reachable_partial); C10_views_agree (name lookup, positional lookup, iteration, len, containment are '
+                'functions of the list); four refuted witnesses (re-attach, add twice, parent=None, datatype object: F8, '
+                'F20). The invariant is also evaluated on hl7apy\'s live object graph after every step of every history.',
+        'design_ref': 'DESIGN.md section 7 C10',
+        'note': 'Trusted: Coq kernel + vm_compute; translators; harness heapcorr.py. No axioms. op_safe is slightly stronger '
+                'than "not listed anywhere" (also: not in a traversal index); measured equivalent on all generated histories, '
+                'not proved. Same model scope as C09.',
+        'technique': 'Coq invariant proof over a function-heap model (all operations, all histories) + invariant evaluated on '
+                     'live objects + state-dump differential',
+    },
+    'C11': {
+        'text': 'Partial proof. In the heap model every observer (read chains of any length by name/long name/positional '
+                'path incl. .value, len, iteration, to_er7 with both trailing_children settings) leaves the children and '
+                'encodings of every pre-existing element unchanged, whatever its outcome, however often repeated '
+                '(C11_read_pure, C11_navigation_pure, C11_read_repeatable, C11_observers_pure). The "first write materialises '
+                'exactly the chain" sentence has a computed instance and is decided by the oracle (before/after dumps around '
+                'read chains of depth 1-4, exact materialisation count, written chain must be listed).',
+        'design_ref': 'DESIGN.md section 7 C11',
+        'note': 'Trusted as C09. No axioms. No general theorem for the materialisation clause; validate() as an observer is '
+                'covered by the C04 purity oracle.',
+        'technique': 'Coq purity proof of the read path of the heap model + before/after differential on live objects',
+    },
+    'C12': {
+        'text': 'Partial proof. C12_encoding_of_visible (encodings are a function of the visible heap) and atomicity of the '
+                'rejection causes where it holds (C12_atomic_partial_add/_assign_name/_assign_value/_assign_append/'
+                '_assign_wrong_element/_delete: a raising step leaves abstraction and encoding of every element unchanged); '
+                'five refuted causes with computed witnesses (replace by another level, refused datatype change, .value '
+                'promotion, partly admissible value, datatype object: F9, F20). The oracle dumps target and root before and '
+                'after every RAISING call of every history plus a catalogue of rejectable operations.',
+        'design_ref': 'DESIGN.md section 7 C12',
+        'note': 'Trusted as C09. No axioms. Atomicity is proved per rejection cause, not as one statement; '
+                '`del seg.<absent>` raising AttributeError concerns the exception class, not state.',
+        'technique': 'Coq per-cause atomicity proofs over the heap model with persistent partial effects + before/after '
+                     'oracle on raising calls',
+    },
+    'C14': {
+        'text': 'Proof (66 obligations). Model of find_child_reference for every element class, _find_name, the attribute-'
+                'name guard and the positional-path decoding (Model/Resolve.v). For ANY structure built from a reference: '
+                'resolution is case-blind (C14_case*), a unique non-reserved long name resolves to the entry of the HL7 name '
+                '(C14_long), <SEG>_<i>_<j>[_<k>] designates component j (subcomponent k) (C14_positional_*), a name that '
+                'designates nothing gives ChildNotFound/ChildNotValid and never another entry (C14_no_such*; refuted for '
+                'varies fields = F25). Per version, kernel-checked: every field/component/subcomponent row is reached by its '
+                'name and (unless exempt) long name in any case; exempt rows are COUNTED in the statement and a digest of the '
+                'name->long-name map is pinned. Implementation sweep is exhaustive (4.9M operations: read/write/delete by '
+                'every spelling and case, negatives).',
+        'design_ref': 'DESIGN.md section 7 C14',
+        'note': 'Trusted: Coq kernel + vm_compute (vm_cast_no_check is used only to avoid evaluating an obligation twice; '
+                'the kernel still checks the cast by vm conversion); translators; harness c14.py. No axioms. An intended table '
+                'change requires `harness/c14.py --repin` (the pinned digest is part of the obligation).',
+        'technique': 'Coq proofs about a name-resolution model + per-version exhaustive vm_compute obligations + exhaustive '
+                     'alias sweep',
+    },
 }
 
 NOT_YET = {}
